@@ -535,8 +535,13 @@ type startResult struct {
 	mismatchBeforeStart bool
 }
 
-func pkiJSON(life string) json.RawMessage {
+func pkiJSON(life string) json.RawMessage { return pkiJSONOn(life, false) }
+
+func pkiJSONOn(life string, own bool) json.RawMessage {
 	ca := map[string]any{"install_trust": false}
+	if own {
+		ca["storage"] = map[string]any{"module": "verif_c14_own"}
+	}
 	if life == "s" {
 		ca["intermediate_lifetime"] = 1 // one nanosecond: inside its renewal window as soon as it exists
 	}
@@ -553,9 +558,9 @@ func observe(app *caddypki.PKI) startResult {
 		r.ikey = k
 	}
 	// RootKey() goes to storage: observe without logging or faults
-	theStore.quiet = true
+	theStore.quiet, ownStore.quiet = true, true
 	rk, err := ca.RootKey()
-	theStore.quiet = false
+	theStore.quiet, ownStore.quiet = false, false
 	if s, ok := rk.(crypto.Signer); ok && err == nil {
 		r.rkey = s
 	} else {
@@ -595,15 +600,24 @@ func tickOnce(app *caddypki.PKI, ev caEvent) (res startResult) {
 
 // startOnce = one start-up of the pki app (Provision, then Start) on theStore. The instance keeps
 // running until stop is called.
-func startOnce(ev caEvent) (res startResult, stop func()) {
+func startOnce(ev caEvent) (res startResult, stop func()) { return startOnceOn(ev, false) }
+
+// startOnceOn: own = the CA's config names a storage module of its own (ownStore, twostores.go); the
+// fault of the event is armed on the storage the config selects, the other one only records.
+func startOnceOn(ev caEvent, own bool) (res startResult, stop func()) {
 	b, err := base()
 	if err != nil {
 		return startResult{kind: "err", class: "harness-base-context", msg: err.Error()}, func() {}
 	}
+	sel, other := theStore, ownStore
+	if own {
+		sel, other = ownStore, theStore
+	}
+	other.begin(0, "")
 	if ev.fault {
-		theStore.begin(ev.idx, ev.mode)
+		sel.begin(ev.idx, ev.mode)
 	} else {
-		theStore.begin(0, "")
+		sel.begin(0, "")
 	}
 	ctx, cancel := caddy.NewContext(b)
 	done := make(chan startResult, 1)
@@ -620,7 +634,7 @@ func startOnce(ev caEvent) (res startResult, stop func()) {
 			}
 			done <- r
 		}()
-		val, err := ctx.LoadModuleByID("pki", pkiJSON(ev.life))
+		val, err := ctx.LoadModuleByID("pki", pkiJSONOn(ev.life, own))
 		if err != nil {
 			r = startResult{kind: "err", class: errClassCA(err), msg: err.Error()}
 			return
